@@ -23,6 +23,7 @@ type Solver struct {
 	log     io.Writer
 	inPath  bool
 	logic   string
+	timeoutMs int
 }
 
 func NewSolver(argv ...string) (*Solver, error) {
@@ -63,6 +64,9 @@ func (s *Solver) Reset() {
 	if s.logic != "" {
 		s.send("(set-option :produce-models true)")
 		s.send("(set-logic " + s.logic + ")")
+	}
+	if s.timeoutMs > 0 {
+		s.send(fmt.Sprintf("(set-option :timeout %d)", s.timeoutMs))
 	}
 	s.defined = map[int]bool{}
 }
